@@ -194,8 +194,18 @@ def fl(tok):
         return float("nan")
 
 
+def sh_retry(ctx, args, d):
+    """ctx.sh with escalating time-outs: a time-out (-999) on a loaded machine is retried, a persistent one is reported"""
+    rc, out = -999, "timeout"
+    for to in (120, 400, 1200):
+        rc, out = ctx.sh(args, cwd=d, timeout=to)
+        if rc != -999:
+            break
+    return rc, out
+
+
 def run_perl(ctx, d, script, args):
-    return ctx.sh(["perl", f"{S}/{script}"] + [str(a) for a in args], cwd=d, timeout=120)
+    return sh_retry(ctx, ["perl", f"{S}/{script}"] + [str(a) for a in args], d)
 
 
 def common_out(r, key, rc, out, path, ncol, xs, want_flags=None, check_x=True):
@@ -998,19 +1008,23 @@ def run_integrate(case, ctx, d):
     if rows is None:
         return r
     f = np.array([float(v) for v in ys])
+    fmag = np.abs(f)  # magnitude of the operands (the rounding of f_i + f_{i+1} is relative to these, not to the sum)
     if mode == "withS":
+        fmag = fmag + np.abs(2 * float(case["kT"]) / x)
         f = f + 2 * float(case["kT"]) / x
     if mode == "sphere":
         f = f * x * x
+        fmag = fmag * x * x
     dx = np.diff(x)
     terms = 0.5 * dx * (f[1:] + f[:-1])
+    tmag = 0.5 * np.abs(dx) * (fmag[1:] + fmag[:-1])
     left = frm == "left"
     if left:
         F = np.concatenate([[0.0], np.cumsum(terms)])
-        acc = np.concatenate([[0.0], np.cumsum(np.abs(terms))])
+        acc = np.concatenate([[0.0], np.cumsum(tmag)])
     else:  # zero point at the right end: F(x_i) = -int_{x_i}^{x_max} f
         F = -np.concatenate([np.cumsum(terms[::-1])[::-1], [0.0]])
-        acc = np.concatenate([np.cumsum(np.abs(terms[::-1]))[::-1], [0.0]])
+        acc = np.concatenate([np.cumsum(tmag[::-1])[::-1], [0.0]])
     got = np.array([fl(p[1]) for p in rows])
     tol = 2.3e-16 * (n + 8) * acc + 1e-14 * np.abs(F)
     if not cmp_vals(r, "table_integrate/value", got, F, tol, xs, "F"):
@@ -1124,8 +1138,8 @@ def run_intdiff(case, ctx, d):
             return r
         F = np.array([fl(p[1]) for p in rowsF])
         Fmax = float(np.abs(F).max())
-        rc, out = ctx.sh(["csg_resample", "--in", "F.tab", "--out", "G.tab", "--grid", gridarg, "--derivative", "D.tab",
-                          "--type", typ], cwd=d)
+        rc, out = sh_retry(ctx, ["csg_resample", "--in", "F.tab", "--out", "G.tab", "--grid", gridarg, "--derivative", "D.tab",
+                                 "--type", typ], d)
         if rc != 0:
             return r.fail("csg_resample/nonzero-exit", f"exit {rc}: {out[-600:]}")
         G = check_resampled(f"{d}/G.tab", "out")
@@ -1151,8 +1165,8 @@ def run_intdiff(case, ctx, d):
         if not cmp_vals(r, "integrate-differentiate/not-inverse", D, f, bound, xs, "d/dx int f"):
             return r
     else:
-        rc, out = ctx.sh(["csg_resample", "--in", "f.tab", "--out", "G.tab", "--grid", gridarg, "--derivative", "D.tab",
-                          "--type", typ], cwd=d)
+        rc, out = sh_retry(ctx, ["csg_resample", "--in", "f.tab", "--out", "G.tab", "--grid", gridarg, "--derivative", "D.tab",
+                                 "--type", typ], d)
         if rc != 0:
             return r.fail("csg_resample/nonzero-exit", f"exit {rc}: {out[-600:]}")
         G = check_resampled(f"{d}/G.tab", "out")
@@ -1219,7 +1233,7 @@ def run_dispatch(case, ctx, d):
     key = case["key"]
     script, args = DISPATCH[key]
     k1, k2 = key.split()
-    rc, out = ctx.sh(["csg_call", "--show", k1, k2], cwd=d)
+    rc, out = sh_retry(ctx, ["csg_call", "--show", k1, k2], d)
     if rc != 0:
         return r.fail("csg_call/show-fails", f"csg_call --show {key}: exit {rc}: {out[-400:]}")
     got = out.strip().splitlines()[-1].strip() if out.strip() else ""
@@ -1233,7 +1247,7 @@ def run_dispatch(case, ctx, d):
     lead = n // 4
     fin = ["o"] * lead + ["i"] * (n - lead)
     write_table(f"{d}/in.tab", xs, ys, fin)
-    rc1, out1 = ctx.sh(["csg_call", k1, k2] + args, cwd=d)
+    rc1, out1 = sh_retry(ctx, ["csg_call", k1, k2] + args, d)
     a = [ln for ln in open(f"{d}/out.tab")] if os.path.exists(f"{d}/out.tab") else None
     if os.path.exists(f"{d}/out.tab"):
         os.remove(f"{d}/out.tab")
